@@ -1,6 +1,7 @@
 package props
 
 import (
+	"strconv"
 	"fmt"
 	"net/http"
 	"net/url"
@@ -205,6 +206,23 @@ func (rr *routingRun) lookupRaw(p world.Probe, rawPath string) world.RouteObs {
 
 // followRedirect resolves Location against the request URL and serves the resolved request: it must be a direct match
 // of the adjusted route with the adjusted parameters, on the same host, with the query string kept.
+// unescapeHighBytes undoes the percent-encoding of bytes >= 0x80 only: a Location header has to be ASCII, so a query
+// with such bytes comes back with them (and nothing else) encoded.
+func unescapeHighBytes(q string) string {
+	var sb strings.Builder
+	for i := 0; i < len(q); i++ {
+		if q[i] == '%' && i+2 < len(q) {
+			if v, err := strconv.ParseUint(q[i+1:i+3], 16, 8); err == nil && v >= 0x80 {
+				sb.WriteByte(byte(v))
+				i += 2
+				continue
+			}
+		}
+		sb.WriteByte(q[i])
+	}
+	return sb.String()
+}
+
 func (rr *routingRun) followRedirect(p world.Probe, rawPath, rawQuery, location string, sv model.Served) string {
 	if location == "" {
 		return "no Location header"
@@ -227,7 +245,7 @@ func (rr *routingRun) followRedirect(p world.Probe, rawPath, rawQuery, location 
 	if target.Scheme != "http" || target.Host != base.Host {
 		return fmt.Sprintf("Location %q leads to %s://%s, away from the request host", location, target.Scheme, target.Host)
 	}
-	if target.RawQuery != rawQuery {
+	if unescapeHighBytes(target.RawQuery) != unescapeHighBytes(rawQuery) {
 		return fmt.Sprintf("Location %q carries query %q, the request had %q", location, target.RawQuery, rawQuery)
 	}
 	// the resolved request
@@ -462,7 +480,7 @@ func runC08(src sim.Source, o Opts) *Result {
 			rawPath, rawQuery := "", ""
 			if rr.f.reserved {
 				if src.Intn("withquery", 2) == 1 {
-					rawQuery = sim.Pick(src, "query", []string{"x=1", "x=1&y=a%2Fb", "q=%3F"})
+					rawQuery = sim.Pick(src, "query", []string{"x=1", "x=1&y=a%2Fb", "q=%3F", "q=caf\u00e9&lang=fr", "price=10\u20ac", "q=\xe9t\xe9&x=1", "q=%C3%A9"})
 				}
 				if src.Intn("reservedvalue", 2) == 1 {
 					segs := strings.Split(p.Path, "/")
